@@ -81,6 +81,27 @@ CHECKS = {
         "make readers hit missing nodes.",
    note="data races are decided by the Go race detector; schedules are whatever the Go scheduler plus seeded perturbation produce",
    technique="TLA+ linearizability trace spec (search mode) checked by TLC over recorded concurrent histories + race detector"),
+ "C09": dict(level="model_checking", ref="DESIGN.md §5 C09",
+   text="WMPT.tla (content map with Total and Owner(b) by cumulative weight in key order) is model-checked by TLC "
+        "(OwnerPartition, OwnerWeights, ContentStable); TLC -simulate behaviours and seeded random histories (updates, deletes, "
+        "commits at collapse levels 0-3/64, gc, reload, root reads) run on the real trie over ten 32-byte keys sharing prefixes of "
+        "0..63 nibbles; TLC validates Weight() after every operation, the owner, value, weight and verifying proof of every block at "
+        "observation points, history independence of the root, and the bridge's independent root of the observed content.",
+   note="known finding C09-SharedContent (consequence of the storage-sharing defect of C11)",
+   technique="TLA+ spec (WMPT.tla) + TLC design check + TLC-generated behaviours replayed into the Go code + TLC trace validation (WMPTTrace.tla)"),
+ "C11": dict(level="model_checking", ref="DESIGN.md §5 C11",
+   text="Same traces, recorded per storage write element: after every element TLC requires the last durably committed root to be "
+        "resolvable (loader-closure computed in TLA+ over graph rows parsed from the stored bytes), after every commit the new root, "
+        "and after every commit/gc a trie really reopened from (root, weight) must report exactly the specification's content "
+        "(owner, value, weight, verifying proof for every block).",
+   note="known finding C11-SharedContent: content-addressed nodes shared between positions are garbage-collected while referenced",
+   technique="TLA+ resolvability invariant checked by TLC on per-write-element traces of the real trie/storage adapter"),
+ "C13": dict(level="model_checking", ref="DESIGN.md §5 C13",
+   text="Checkpoint / change batch / single commit (any level) / optional gc / Rollback or RollbackTrie scenarios: TLC checks root and "
+        "weight equal the checkpoint's, the checkpoint root is resolvable, a reopened trie reports the checkpoint content, and no "
+        "node that only the rolled-back commit added to storage remains.",
+   note="exactly one commit between checkpoint and rollback; known finding C13-SharedContent",
+   technique="TLA+ rollback invariants (WMPTTrace.tla) checked by TLC on per-write-element traces"),
 }
 
 NOT_APPLICABLE = []
